@@ -37,31 +37,31 @@ func zzOpaqueProtos() []interface{} {
 	var nilMap map[string]interface{}
 	var nilSlice []interface{}
 	return []interface{}{
-		zzOpStruct{A: 1, B: "x"},           // 0 comparable struct
-		struct{}{},                          // 1 empty struct
-		&zzOpTarget,                         // 2 pointer
-		nilPtr,                              // 3 typed nil pointer
-		zzOpMap{"a": 1},                     // 4 typed map
-		zzOpSlice{"a"},                      // 5 typed slice
-		[2]int{1, 2},                        // 6 array
-		int(3),                              // 7 int
-		int64(4),                            // 8 int64
-		uint8(5),                            // 9 uint8
-		float32(1.5),                        // 10 float32
-		complex(1, 2),                       // 11 complex128
-		func() {},                           // 12 func
-		make(chan int),                      // 13 chan
-		zzOpString("s"),                     // 14 named string
-		[]byte("ab"),                        // 15 []byte
-		zzOpUncomparable{S: []int{1}},       // 16 uncomparable struct
-		zzOpNested{},                        // 17 nested uncomparable struct
-		nilMap,                              // 18 nil map[string]interface{} (typed nil of a JSON container type)
-		nilSlice,                            // 19 nil []interface{}
-		map[string]string{"a": "b"},         // 20 map[string]string
-		[]int{1},                            // 21 []int
-		zzOpNumLike{v: 2},                   // 22 a type with a Float64() (float64, error) method
-		(*zzOpNumLike)(nil),                 // 23 typed nil pointer whose type has number-like methods
-		&zzOpPointee,                        // 24 *interface{} pointing at a JSON object (what callers hand to json.Unmarshal)
+		zzOpStruct{A: 1, B: "x"},      // 0 comparable struct
+		struct{}{},                    // 1 empty struct
+		&zzOpTarget,                   // 2 pointer
+		nilPtr,                        // 3 typed nil pointer
+		zzOpMap{"a": 1},               // 4 typed map
+		zzOpSlice{"a"},                // 5 typed slice
+		[2]int{1, 2},                  // 6 array
+		int(3),                        // 7 int
+		int64(4),                      // 8 int64
+		uint8(5),                      // 9 uint8
+		float32(1.5),                  // 10 float32
+		complex(1, 2),                 // 11 complex128
+		func() {},                     // 12 func
+		make(chan int),                // 13 chan
+		zzOpString("s"),               // 14 named string
+		[]byte("ab"),                  // 15 []byte
+		zzOpUncomparable{S: []int{1}}, // 16 uncomparable struct
+		zzOpNested{},                  // 17 nested uncomparable struct
+		nilMap,                        // 18 nil map[string]interface{} (typed nil of a JSON container type)
+		nilSlice,                      // 19 nil []interface{}
+		map[string]string{"a": "b"},   // 20 map[string]string
+		[]int{1},                      // 21 []int
+		zzOpNumLike{v: 2},             // 22 a type with a Float64() (float64, error) method
+		(*zzOpNumLike)(nil),           // 23 typed nil pointer whose type has number-like methods
+		&zzOpPointee,                  // 24 *interface{} pointing at a JSON object (what callers hand to json.Unmarshal)
 	}
 }
 
